@@ -79,6 +79,8 @@ pub struct Cfg
     pub pct_direct_step: u64,
     pub pct_update_step: u64,
     pub pct_excl: u64,
+    /// share of actors that queue through `DeferredWorld`
+    pub pct_dw: u64,
     pub pct_fallible: u64,
     pub initial_bundle: (u64, u64),
     /// percent chance a trigger / target is drawn from the run's small "hot" set
@@ -135,6 +137,7 @@ pub fn base_cfg() -> Cfg
         pct_direct_step: 35,
         pct_update_step: 5,
         pct_excl: 20,
+        pct_dw: 6,
         pct_fallible: 20,
         initial_bundle: (1, 4),
         pct_hot: 70,
@@ -244,6 +247,7 @@ pub fn profile(name: &str) -> Cfg
             c.pct_hot = 85;
             c.world_reactors = 1;
             bump(&mut c, &[(K::WrAdd, 5), (K::WrRemove, 5)]);
+            c.despawn_trig_boost = 3;
         }
         "C07" =>
         {
@@ -363,6 +367,8 @@ struct G<'a>
     created_budget: u64,
     /// pre-spawned instances that only ever get persistent registrations
     persistent_class: Vec<Inst>,
+    /// exclusive bodies of this program do not flush before direct trigger calls
+    noflush: bool,
     wr: Vec<u8>,
     ewr: Vec<u8>,
 }
@@ -434,6 +440,7 @@ impl<'a> G<'a>
         if self.r.chance(self.c.pct_excl) { if self.r.chance(30) { Flavour::ExclusiveWarn } else { Flavour::Exclusive } }
         else if self.r.chance(self.c.pct_fallible) { if self.r.chance(75) { Flavour::FallibleDrop } else { Flavour::FallibleWarn } }
         else if self.r.chance(12) { Flavour::InParamSet }
+        else if self.r.chance(self.c.pct_dw) { Flavour::DeferredW }
         else { Flavour::Plain }
     }
 
@@ -456,6 +463,26 @@ impl<'a> G<'a>
             let n = self.r.range(self.c.ops_per_script.0, self.c.ops_per_script.1);
             let mut ops = Vec::new();
             for _ in 0..n { if let Some(op) = self.op(me, flavour, depth) { ops.push(op); } }
+            // an exclusive body that leaves a registration or a revocation on the world's queue and then triggers the very thing
+            // directly (programs that do not flush before direct trigger calls)
+            if self.noflush && matches!(flavour, Flavour::Exclusive | Flavour::ExclusiveWarn) && self.r.chance(45)
+            {
+                let s = self.slot();
+                let (t, w) = match self.r.below(5)
+                {
+                    0 | 1 => { let p = self.p(); (Trig::EntityEvent(s, p), WOp::EntityEvent(s, p)) }
+                    2 => { let c = self.comp(); (Trig::EntityMutation(s, c), WOp::TriggerMutation(s, c)) }
+                    3 => { let p = self.p(); (Trig::Broadcast(p), WOp::Broadcast(p)) }
+                    _ => { let r = self.res(); (Trig::Resource(r), WOp::TriggerRes(r)) }
+                };
+                let first = if !self.persistent_class.is_empty() && self.r.chance(70)
+                {
+                    let inst = *self.r.pick(&self.persistent_class.clone());
+                    if !self.no_event(inst) && self.used.insert((inst, t)) { Some(Op::Register { inst, mode: Mode::Persistent, trigs: vec![t] }) } else { None }
+                }
+                else { let n = self.insts.len() as u64; Some(Op::Revoke(self.r.below(n) as Inst)) };
+                if let Some(f) = first { let at = self.r.below(ops.len() as u64 + 1) as usize; ops.insert(at, Op::Now(w)); ops.insert(at, f); }
+            }
             v.push(ops);
         }
         v.push(Vec::new());
@@ -533,6 +560,7 @@ impl<'a> G<'a>
             for k in [K::Mutate, K::SetIfNeq, K::Noreact, K::Read, K::ResMut, K::ResSetIfNeq, K::ResNoreact] { w[k as usize] = 0; }
         }
         else { w[K::Now as usize] = 0; }
+        if flavour == Flavour::DeferredW { for k in [K::Mutate, K::SetIfNeq, K::Noreact, K::Read, K::ResMut, K::ResSetIfNeq, K::ResNoreact] { w[k as usize] = 0; } }
         if !matches!(flavour, Flavour::FallibleDrop | Flavour::FallibleWarn | Flavour::ExclusiveWarn) || me.is_none() { w[K::ReturnErr as usize] = 0; }
         if depth >= 2 || self.created_budget == 0 { w[K::On as usize] = 0; w[K::Once as usize] = 0; }
         if self.wr.is_empty() { w[K::WrAdd as usize] = 0; w[K::WrRemove as usize] = 0; w[K::WrRun as usize] = 0; }
@@ -628,7 +656,8 @@ pub fn generate(seed: u64, base: &Cfg) -> Program
     let (wrn, ewrn) = (c.world_reactors, c.entity_world_reactors);
     let created = c.max_created;
     let mut g = G { r: &mut r, c, nslots, insts: Vec::new(), targets: Vec::new(), used: HashSet::new(), hot_trigs: Vec::new(), hot_slot,
-        created_budget: created, persistent_class: Vec::new(), wr: Vec::new(), ewr: Vec::new() };
+        created_budget: created, persistent_class: Vec::new(), wr: Vec::new(), ewr: Vec::new(), noflush: false };
+    g.noflush = g.r.chance(35);
     // hot triggers shared by many reactors
     let nhot = g.r.range(2, 5);
     g.c.pct_hot = 0;
@@ -794,6 +823,8 @@ pub fn generate(seed: u64, base: &Cfg) -> Program
         if let Some(Step::Batch(ops)) = steps.first_mut() { pre.append(ops); *ops = pre; }
     }
     prog.bystander = g.r.chance(12);
+    prog.excl_noflush = g.noflush;
+    if g.c.syscalls { for k in 0..3 { prog.callee_dw[k] = g.r.chance(g.c.pct_dw * 2); } }
     prog.insts = g.insts;
     prog.frame_systems = fs;
     prog.steps = steps;
